@@ -283,6 +283,11 @@ func (c *Context) ExecutePackage(outDir string, p Package) error {
 				}
 			}
 		}
+		// What an earlier generator wrote ends its last line: the next
+		// contribution must not continue it ("func A() {}func B() {}").
+		if b := f.Body.Bytes(); len(b) > 0 && b[len(b)-1] != '\n' {
+			f.Body.WriteByte('\n')
+		}
 		if err := genContext.executeBody(&f.Body, g); err != nil {
 			return err
 		}
